@@ -297,14 +297,30 @@ func xgDiff(r *Rng) *osm.Diff {
 		return &osm.OSM{Relations: osm.Relations{xgRelation(r)}}
 	}
 	for i := r.Intn(4); i > 0; i-- {
+		var a osm.Action
 		switch r.Intn(3) {
 		case 0:
-			d.Actions = append(d.Actions, osm.Action{Type: osm.ActionCreate, OSM: one()})
+			a = osm.Action{Type: osm.ActionCreate, OSM: one()}
 		case 1:
-			d.Actions = append(d.Actions, osm.Action{Type: osm.ActionModify, Old: one(), New: one()})
+			a = osm.Action{Type: osm.ActionModify, Old: one(), New: one()}
 		default:
-			d.Actions = append(d.Actions, osm.Action{Type: osm.ActionDelete, Old: one(), New: one()})
+			a = osm.Action{Type: osm.ActionDelete, Old: one(), New: one()}
 		}
+		// the three parts of an action are optional fields of the value, whatever its type says: any combination
+		// of the element held directly, the old block and the new block is a value that has to come back
+		if r.Chance(25) {
+			a.OSM, a.Old, a.New = nil, nil, nil
+			if r.Bool() {
+				a.OSM = one()
+			}
+			if r.Bool() {
+				a.Old = one()
+			}
+			if r.Bool() {
+				a.New = one()
+			}
+		}
+		d.Actions = append(d.Actions, a)
 	}
 	return d
 }
